@@ -62,6 +62,11 @@ def _mutants(args):
             seeds.append(bytes(v['b'])[19:])
     lits = scenarios.test_literals(scenarios.world.REPO)
     jobs = []
+    # every reference encoding of the multiprotocol families (label stacks, RDs, EVPN routes, flowspec rules, the construct-only
+    # families and the MP-carried IPv4 routes) is decoded once as it is, under the work meter
+    for fam in ('mp_ipv6', 'mp_lu4', 'mp_lu6', 'mp_vpn4', 'mp_vpn6', 'mp_evpn', 'mp_fs', 'enc', 'mpdec'):
+        for v in check_codec.gen_vectors(fam)['vecs']:
+            jobs.append(('Update.parse', bytes(v['b'])[19:].hex(), 'valid-' + fam))
     for lit in lits:
         jobs.append(('top', lit.hex(), 'literal'))
         jobs.append(('Update.parse', wire.update(attrs=lit)[19:].hex(), 'literal-as-attrs'))
